@@ -129,8 +129,10 @@ func runChainCmd(args []string) {
 		}
 		if p.Roundtrip && len(obs) > 0 && obs[len(obs)-1].Class == "ok" && obs[len(obs)-1].Kind == "end" {
 			e.RT = e.Roundtrip()
-			st.Roundtrips++
-			if e.RT.Class != "ok" || !e.RT.SameExport {
+			if e.RT != nil {
+				st.Roundtrips++
+			}
+			if e.RT != nil && (e.RT.Class != "ok" || !e.RT.SameExport) {
 				fmt.Printf("ROUNDTRIP case=%d class=%s same_export=%v %s\n", i, e.RT.Class, e.RT.SameExport, e.RT.Log)
 			}
 		}
